@@ -302,7 +302,15 @@ func (w *world) submit(req *t_api.Request) string {
 	kind, args := project.Request(req, w.cursorId)
 	w.reqKind[rid] = kind
 	w.open[rid] = true
-	sub := M{"e": "submit", "t": w.now, "r": rid, "kind": kind, "args": args, "trav": "", "page": int64(0)}
+	sub := M{"e": "submit", "t": w.now, "r": rid, "kind": kind, "args": args, "trav": "", "page": int64(0), "born": int64(0)}
+	if req.Kind == t_api.SearchSchedules && req.SearchSchedules != nil && req.SearchSchedules.SortId != nil {
+		// a cursor names a sort id, the trace names the row: when that id has been deleted and created again
+		// the row of the cursor is another one than the row of that name (told apart by its creation instant)
+		var born int64
+		if w.obs.QueryRow("SELECT created_on FROM schedules WHERE sort_id = ?", *req.SearchSchedules.SortId).Scan(&born) == nil {
+			sub["born"] = born
+		}
+	}
 	if kind == "SearchPromises" || kind == "SearchSchedules" {
 		args["qc"] = split(args["q"].(string))
 	}
